@@ -12,6 +12,15 @@ Record pipeline_out := {
   po_store : store;            (* comment groups after Parse (input of GenerateBaseCode) *)
 }.
 
+(** what the dumper guarantees about signatures: one name slot per parameter and per result
+    (go/types always has a *types.Var for each); reported with every model run and
+    asserted by the harness, hypothesis of the no-panic theorem *)
+Definition sig_wf (sg : sig) : bool :=
+  Nat.eqb (List.length (sg_pnames sg)) (List.length (sg_ptys sg)) &&
+  Nat.eqb (List.length (sg_rnames sg)) (List.length (sg_rtys sg)).
+Definition dump_wf_b (d : dump) : bool :=
+  forallb (fun i => forallb (fun m => sig_wf (md_sig m)) (if_methods i)) (d_ifaces d).
+
 Definition build_fuel (d : dump) : nat := (100 + 2 * List.length (d_env d))%nat.
 
 Definition doc_lines (st : store) (doc : option N) : list str :=
